@@ -31,7 +31,21 @@ def civil_in_range(T, off):
     return in_range(T + off * NS, MIN_DAY * DAY_NS, (MAX_DAY + 1) * DAY_NS - 1)
 
 
-Y2024 = 1704067200
+W0 = 1708819200  # 2024-02-25T00:00:00Z
+def split_claim(a, o):
+    sg = If(a[0], -1, 1)
+    t, c = o.some[0], o.some[1]
+    tcal, ttime, tsig = t[0].ints(), t[1].ints(), t[2].i
+    ccal, ctime, csig = c[0].ints(), c[1].ints(), c[2].i
+    tz = And(a[3] == 0, a[4] == 0, a[5] == 0, a[6] == 0)
+    cz = And(a[1] == 0, a[2] == 0)
+    return And(o.is_some,
+               And([x == 0 for x in tcal]), ttime[0] == sg * a[3], ttime[1] == 0, ttime[2] == 0, ttime[3] == sg * a[4], ttime[4] == sg * a[5], ttime[5] == sg * a[6],
+               tsig == If(tz, 0, sg),
+               And([x == 0 for x in ctime]), ccal[0] == 0, ccal[1] == sg * a[1], ccal[2] == 0, ccal[3] == sg * a[2],
+               csig == If(cz, 0, sg))
+
+
 B = {0: (TS_MIN_S, TS_MAX_S), 1: (-999999999, 999999999), 2: (-OFF_MAX, OFF_MAX)}
 NAMES = ["hours", "minutes", "seconds", "milliseconds", "microseconds", "nanoseconds"]
 
@@ -49,14 +63,19 @@ KERNELS = [
                                                               And(o.some.is_some, o.some.some[0][0].i * NS + o.some.some[0][1].i == T + d, o.some.some[1].i == a[2])))(
                    a[0] * NS + a[1], If(a[3], -1, 1) * (7 * a[4] + a[5]) * DAY_NS)))],
       bounds={**B, 4: (0, LIM["weeks"]), 5: (0, LIM["days"])}, split=(0, 128), timeout=900, tier="deep"),
-    K("c20::k_zoned_fixed_add_mixed", pre=lambda a: And(c02.valid_ts(a[0], a[1]), c02.off_ok(a[2]), in_range(a[0], Y2024, Y2024 + 366 * 86400 - 1),
-                                                        in_range(a[4], 0, 40), in_range(a[5], 0, 100), in_range(a[6], 0, 10000000000), in_range(a[7], 0, 5000000000)),
-      claims=[("Zoned(fixed zone) + span mixing days with hours / microseconds / nanoseconds [instant in 2024, days <= 40, hours <= 100, "
+    K("c20::k_span_split", pre=lambda a: And(in_range(a[1], 0, LIM["months"]), in_range(a[2], 0, LIM["days"]), in_range(a[3], 0, LIM["hours"]),
+                                             in_range(a[4], 0, LIM["milliseconds"]), in_range(a[5], 0, LIM["microseconds"]), in_range(a[6], 0, LIM["nanoseconds"])),
+      claims=[("Span::only_time / Span::only_calendar (the split Zoned::checked_add applies): each keeps exactly its own units with their sign, zeroes the others, "
+               "and has sign 0 iff its part is zero", split_claim)],
+      bounds={1: (0, LIM["months"]), 2: (0, LIM["days"]), 3: (0, LIM["hours"]), 4: (0, LIM["milliseconds"]), 5: (0, LIM["microseconds"]), 6: (0, LIM["nanoseconds"])}),
+    K("c20::k_zoned_fixed_add_mixed", pre=lambda a: And(c02.valid_ts(a[0], a[1]), c02.off_ok(a[2]), in_range(a[0], W0, W0 + 10 * 86400 - 1),
+                                                        in_range(a[4], 0, 3), in_range(a[5], 0, 30), in_range(a[6], 0, 10000000000), in_range(a[7], 0, 5000000000)),
+      claims=[("Zoned(fixed zone) + span mixing days with hours / microseconds / nanoseconds [instant in 2024-02-25..2024-03-05, every offset, days <= 3, hours <= 30, "
                "microseconds <= 1e10, nanoseconds <= 5e9]: the instant moves by exactly days*24 h + the time units, zone kept",
                lambda a, o: And(o.is_some, (lambda T, d: And(o.some.is_some, o.some.some[0][0].i * NS + o.some.some[0][1].i == T + d, o.some.some[1].i == a[2]))(
                    a[0] * NS + a[1], If(a[3], -1, 1) * (a[4] * DAY_NS + a[5] * HOUR_NS + a[6] * 1000 + a[7]))))],
-      bounds={0: (Y2024, Y2024 + 366 * 86400 - 1), 1: (-999999999, 999999999), 2: (-OFF_MAX, OFF_MAX), 4: (0, 40), 5: (0, 100), 6: (0, 10000000000), 7: (0, 5000000000)},
-      split=(0, 8), timeout=300),
+      bounds={0: (W0, W0 + 10 * 86400 - 1), 1: (-999999999, 999999999), 2: (-OFF_MAX, OFF_MAX), 4: (0, 3), 5: (0, 30), 6: (0, 10000000000), 7: (0, 5000000000)},
+      split=[(0, 10), (4, 4)], timeout=900, tier="deep"),
     K("c20::k_zoned_fixed_start_of_day", pre=lambda a: And(c02.valid_ts(a[0], a[1]), c02.off_ok(a[2])),
       claims=[("start_of_day(fixed zone) == the instant minus the civil time of day (civil midnight), when representable",
                lambda a, o: And(o.is_some, Implies(o.some.is_some, And(
